@@ -250,12 +250,14 @@ func main() {
 	runs = append(runs,
 		run{"native-2inst-outage-looprule", fleet.Cfg{N: 2, Native: true, Keys: []string{"d/a"}, Vals: []string{"x", "y"}, Silent: -1, Outage: true, LoopRule: true}, od},
 		run{"shadow-2inst-outage-looprule", fleet.Cfg{N: 2, Native: false, Keys: []string{"d/a"}, Vals: []string{"x", "y"}, Silent: -1, Outage: true, LoopRule: true}, od})
-	for _, rn := range runs {
+	for ri, rn := range runs {
 		if r.Expired() {
 			r.AddPart(&ev.Part{Name: rn.name, Engine: "E2", Exhaustive: false, Bound: "not started: time budget used up"})
 			continue
 		}
+		restoreBudget := r.SubBudget(r.Remaining() / time.Duration(len(runs)-ri))
 		st := statemc.Run(r, rn.name, "x", rn.cfg, rn.depth, 0)
+		restoreBudget()
 		cj, _ := json.Marshal(rn.cfg)
 		r.AddPart(&ev.Part{Name: rn.name, Engine: "E2", States: st.States, Transitions: st.Transitions, Executions: st.Transitions, Distinct: int64(st.Terminals), Exhaustive: st.Exhaustive,
 			Bound:   fmt.Sprintf("BFS depth %d of %d events completed (frontier sizes %v); every state closed by the quiescent closure; cfg %s", st.Depth, rn.depth, st.PerDepth, cj),
